@@ -15,7 +15,7 @@ PV = "src/linters/file_placement/pattern_validator.py::"
 
 DEFAULT_REASON = "File not allowed in this location"
 Directories = Assoc(Dict)
-MatcherT = Rec("PatternMatcher", cls=P + "PatternMatcher", _compiled_patterns=Dict)
+MatcherT = Rec("PatternMatcher", cls=P + "PatternMatcher", _compiled_patterns=Dict.with_gen(lambda g: {}))
 
 
 # ------------------------------------------------------------------ specification of containment (property text)
